@@ -159,6 +159,35 @@ def gen(rng, tier):
                 ops.append({"op": "remove", "h": 0, "name": nm, "idx": rng.below(length), "opts": bo}); length -= 1
         yield {"k": "ops", "init": init, "optsInit": [], "ops": ops, "_tag": "shrink-then-grow", "_nt": True,
                "_sig": "shrinkgrow|%s|%d|%d" % (top, m, len(ops))}
+    # (c3) removals behind the end of lists that were shortened before, and SetChild with the receiver itself, one of its
+    # ancestors, or nil as the child
+    for _ in range(80 if tier == "quick" else 800):
+        m = 2 + rng.below(5)
+        top = rng.chance(0.4)
+        init = A([U(i) for i in range(m)]) if top else M([("l", A([U(i) for i in range(m)])), ("o", M([("in", M([("x", U(1))]))]))])
+        nm = "" if top else "l"
+        bo = [opt("PathSep", ".")]
+        ops = []
+        length = m
+        for _ in range(2 + rng.below(5)):
+            r = rng.below(10)
+            if r < 6:
+                idx = rng.below(length) if (length > 0 and rng.chance(0.6)) else length + rng.below(3)
+                ops.append({"op": "remove", "h": 0, "name": nm, "idx": idx, "opts": bo})
+                if idx < length: length -= 1
+            elif r < 8 and not top:
+                ops.append({"op": "child", "h": 0, "name": rng.pick(["o", "o.in"]), "idx": -1, "opts": bo})
+                nh = sum(1 for o in ops if o["op"] == "child")
+                # the child handle (or the root) attached below the child: the receiver's own ancestor chain
+                ops.append({"op": "setchild", "h": nh, "name": "back", "idx": -1, "childHandle": rng.pick([0, nh]), "opts": bo})
+                ops.append({"op": "path", "h": nh})
+            elif r < 9:
+                ops.append({"op": "setchild", "h": 0, "name": "a", "idx": -1, "childHandle": 0, "opts": bo})
+                ops.append({"op": "path", "h": 0})
+            else:
+                ops.append({"op": "setchild", "h": 0, "name": "n", "idx": rng.pick([-1, 0]), "nilChild": True, "opts": bo})
+        yield {"k": "ops", "init": init, "optsInit": [], "ops": ops, "_tag": "remove-behind-end+selfchild", "_nt": True,
+               "_sig": "rbe|%s|%d|%s" % (top, m, ",".join(sorted(set(o["op"] + ("-self" if "childHandle" in o else "") + ("-nil" if o.get("nilChild") else "") for o in ops))))}
     # (d) unpack targets of every kind
     odd = [TG.T("chan"), TG.T("func"), TG.T("complex"), TG.T("iface"), TG.T("int"), TG.T("ptr", e=TG.T("int")), TG.T("badmap", e=TG.T("int")),
            TG.T("ptr", e=TG.T("ptr", e=TG.T("struct", f=[{"n": "A", "tag": "", "v": "", "ty": TG.T("int")}]))),
